@@ -34,7 +34,7 @@ def run(ctx):
         unk, key, unm = meta.normalise(r["diags"], sites)
         # the alias declarations themselves are extra uses of the aliased type in local-alias mode: they can only ADD a
         # once-per-file report of a type that the package already uses, never change the (package, type) set
-        a_only, m_only = worlds.compare(r["diags"], m["diags"], ("IMM", "CTOR", "TONL", "PKGO"))
+        a_only, m_only = worlds.compare(r["diags"], m["diags"], worlds.MODELLED)
         d1 = sorted(unk ^ b_unk)
         d2 = sorted(key ^ b_key)
         bad = r["crashed"] or r["rc"] not in (0, 3) or rc != 0
